@@ -44,7 +44,6 @@ var c09GuardExceptions = map[string]string{
 	"idx:driver.generateRawReport:param cmd[0]":                                                           "every caller passes a non-empty command: literal slices in the web handlers, input[:1] of non-empty tokens in parseCommandLine, []string{name} from outputFormat",
 	"idx:driver.generateRawReport:param cmd[0]#2":                                                         "every caller passes a non-empty command",
 	"idx:(*driver.webInterface).stackView:make[0]":                                                        "Report.Stacks always creates the root source first, so len(stacks.Sources) >= 1",
-	"idx:driver.locateBinaries:profile.Profile.Mapping[0]":                                                "the statement directly above installs a fake mapping when len(p.Mapping) == 0",
 	"idx:(*driver.config).makeURL:call get[high=1]":                                                       "taken only for reflect.Bool fields, whose get() value is fmt.Sprint(bool): \"true\" or \"false\"",
 }
 
